@@ -122,6 +122,18 @@ FOCUS_TEMPLATES = [
     # named references to functions of arity one that depend on the focus bind it where they are created
     ("let $d := parse-xml('<r><i xml:lang=\"en\"/><i xml:lang=\"it\"/><i/></r>') return (let $f := $d/r/i[1]/lang#1 "
      "return for $k in %s return $d/r/i[($k mod 3) + 1]/$f('en'))", lambda q: [['bool', True] for _ in q], 'focus-dependent-function-reference'),
+    # for-each-pair with two lazy operands that depend on the focus (predicates with position()/last(), paths)
+    ("for-each-pair(%s[position() ge 1][. ge last() - last()], %s[. ge 0][position() le last()], function($a, $b) { $a * 10 + $b })",
+     lambda q: _ints([x * 11 for x in q]), 'for-each-pair-lazy-operands'),
+    ("for-each-pair((1 to 9)[. ge last() - 2], %s[position() lt 3], function($a, $b) { $a * 10 + $b })",
+     lambda q: _ints([(7 + i) * 10 + x for i, x in enumerate(q[:2])]), 'for-each-pair-lazy-operands'),
+    ("for-each-pair((1 to 6)[. ge last() - count(%s) + 1], (1 to 12)[. lt count(%s) + 1], function($a, $b) { $a * 10 + $b })",
+     lambda q: _ints([(6 - len(q) + 1 + i) * 10 + i + 1 for i in range(len(q))]), 'for-each-pair-lazy-operands'),
+    ("for-each-pair((1 to 12)[. lt count(%s) + 1], (1 to 6)[. ge last() - count(%s) + 1], function($a, $b) { $a * 10 + $b })",
+     lambda q: _ints([(i + 1) * 10 + 6 - len(q) + 1 + i for i in range(len(q))]), 'for-each-pair-lazy-operands'),
+    ("let $d := parse-xml(concat('<r>', string-join(%s ! concat('<i k=\"', ., '\"/>')), '</r>')) "
+     "return for-each-pair($d//i/@k, $d/r/i, function($a, $b) { concat($a, name($b), count($b/preceding-sibling::*)) })",
+     lambda q: [['str', '%di%d' % (x, i)] for i, x in enumerate(q)], 'for-each-pair-lazy-operands'),
     # placeholders at every position of the folds (also under the XPath 3.0 parser, whose placeholder is another token)
     ("fold-left(%s, ?, function($a, $b) { $a + $b })(0)", lambda q: [['int', str(sum(q))]], 'fold-placeholder', 'v30'),
     ("fold-right(%s, ?, function($a, $b) { $a + $b })(1)", lambda q: [['int', str(sum(q) + 1)]], 'fold-placeholder', 'v30'),
